@@ -223,27 +223,41 @@ func genFileCase(c *Ctx) (*fileCase, *Violation) {
 // checkPrefix verifies that got[0:k] equal the expected documents.
 // live returns the indexes, among the first k documents, of those the readers
 // return: all of them, minus empty objects while that known finding is open.
-func (fc *fileCase) live(c *Ctx, k int) []int {
-	var l []int
+func (fc *fileCase) live(c *Ctx, k int, got []interface{}) []int {
+	var l, all []int
 	skipped := false
 	for i := 0; i < k; i++ {
+		all = append(all, i)
 		if fc.empty[i] {
 			skipped = true
 			continue
 		}
 		l = append(l, i)
 	}
-	if skipped && !c.KnownHit("C19-empty-object-skipped", "a {} document in the file") {
-		l = l[:0]
-		for i := 0; i < k; i++ {
-			l = append(l, i)
+	if !skipped {
+		return all
+	}
+	// a tree that returns the empty Maps too is right (that is what the property says); a tree
+	// that drops exactly them shows the known finding; anything else is judged against "all"
+	keepsEmpty := len(got) >= len(all)
+	if keepsEmpty {
+		for j, i := range all {
+			if mm, ok := got[j].(mxj.Map); fc.empty[i] && (!ok || mm == nil || len(mm) != 0) {
+				keepsEmpty = false
+			}
 		}
 	}
-	return l
+	if keepsEmpty {
+		return all
+	}
+	if c.KnownHit("C19-empty-object-skipped", "a {} document in the file") {
+		return l
+	}
+	return all
 }
 
 func (fc *fileCase) checkPrefix(c *Ctx, clause string, got []interface{}, raws [][]byte, k int) *Violation {
-	lv := fc.live(c, k)
+	lv := fc.live(c, k, got)
 	if len(got) < len(lv) {
 		return &Violation{clause + "-lost/" + fc.tag(), fmt.Sprintf("%d Maps returned, but %d documents are intact in the file", len(got), len(lv))}
 	}
@@ -329,7 +343,7 @@ func runC19(c *Ctx) *Violation {
 	if rerr != nil {
 		return &Violation{"C19.f1-read-error/" + fc.tag(), fmt.Sprintf("reading back an intact file returned %v (%d Maps)", rerr, len(got))}
 	}
-	if want := len(fc.live(c, len(fc.maps))); len(got) != want {
+	if want := len(fc.live(c, len(fc.maps), got)); len(got) != want {
 		return &Violation{"C19.f1-count/" + fc.tag(), fmt.Sprintf("%d Maps written, %d read back", len(fc.maps), len(got))}
 	}
 	if v := fc.checkPrefix(c, "C19.f1", got, raws, len(fc.maps)); v != nil {
@@ -403,7 +417,7 @@ func runC19(c *Ctx) *Violation {
 			c.C["probe.f2_checked"]++
 			c.Distinct("nontrivial", HashStr(string(fc.file)).Int(tear).Int(1))
 			var vv *Violation
-			if len(got) != len(fc.live(c, k)) {
+			if len(got) != len(fc.live(c, k, got)) {
 				vv = &Violation{"C19.f2-count/" + fc.tag(), fmt.Sprintf("file torn at byte %d of %d: %d documents are intact but %d Maps were returned (err=%v)", tear, L, k, len(got), rerr)}
 			} else if vv = fc.checkPrefix(c, "C19.f2", got, raws, k); vv == nil {
 				if inDoc && rerr == nil {
@@ -467,7 +481,7 @@ func runC19(c *Ctx) *Violation {
 			}
 		}
 		k := intact(fc.ends, off)
-		if len(got) > len(fc.live(c, k)) {
+		if len(got) > len(fc.live(c, k, got)) {
 			// documents past the error cannot have been read
 			return &Violation{"C19.f3-eio-extra/" + fc.tag(), fmt.Sprintf("read error at offset %d: %d Maps returned but only %d documents precede the error", off, len(got), k)}
 		}
